@@ -380,7 +380,7 @@ impl<'a> G<'a> {
                     self.call("double", vec![x], true)
                 }
             },
-            CT::B => match self.rng.below(15) {
+            CT::B => match self.rng.below(16) {
                 0 | 1 => {
                     let and = self.rng.chance(1, 2);
                     let a = self.gen(&CT::B, d);
@@ -474,6 +474,24 @@ impl<'a> G<'a> {
                     let l = self.gen(&CT::L(Box::new(tt.clone())), d);
                     let x = self.gen(&tt, d);
                     self.call("contains", vec![l, x], true)
+                }
+                14 => {
+                    // presence of a numeric key's twin of the other integer kind, asked with `in`
+                    // and with contains() in both call styles (a one- or two-entry map literal)
+                    let (k, q) = self.cross_keys();
+                    let vt = self.scalar();
+                    let v = self.gen(&vt, d.min(1));
+                    let m = if self.rng.chance(1, 2) {
+                        t(format!("{{{}: {}}}", k.src, v.src), format!("(tmap ({} {}))", k.wire, v.wire), k.ops + v.ops)
+                    } else {
+                        t(format!("{{'z': 0, {}: {}}}", k.src, v.src),
+                          format!("(tmap ((lit (str 122)) (lit (int 0))) ({} {}))", k.wire, v.wire), k.ops + v.ops)
+                    };
+                    if self.rng.chance(1, 3) {
+                        self.bin("in", &q, &m, |a, b| format!("({} in {})", a, b))
+                    } else {
+                        self.call("contains", vec![m, q], true)
+                    }
                 }
                 _ => {
                     let a = self.gen(&CT::Y, d);
